@@ -176,6 +176,8 @@ def _chg_view(vv, atomic, k, c):
 
 
 class _SCRG_enantiomer_changes(LoopInv):
+    """both loops of SCRG.enantiomer: every visited key of the SOURCE's change table gets, in the copy, a newly allocated
+    ChangeDict with the inverted descriptors; nothing else is written"""
     atomic = True
     allocates = True  # every iteration builds a new ChangeDict
 
@@ -186,39 +188,45 @@ class _SCRG_enantiomer_changes(LoopInv):
 
     def inv(self, ctx, done):
         e = ctx.fr.env["enantiomer"]
-        v0 = ctx.v_entry
-        ve0 = GM.View(ctx.h_entry, e)
+        v0 = ctx.v_entry                      # the source at loop entry (never written)
+        E = ctx.h_entry
         h = H.heap_of(ctx.interp)
-        ve = GM.View(h.snapshot(), e)
-        k = z3.Int("lk") if self.atomic else z3.Const("lkb", BondS)
-        ko = z3.Const("lko", BondS) if self.atomic else z3.Int("lko")
+        N = h.snapshot()
+        vE, vN = GM.View(E, e), GM.View(N, e)  # the copy at loop entry / now
+        at = self.atomic
+        k = z3.Int("lk") if at else z3.Const("lkb", BondS)
+        k2 = z3.Int("lk2") if at else z3.Const("lkb2", BondS)
         c = z3.Const("lc", H.ChgS)
         r_ = z3.Int("lr")
-        old = _chg_view(v0, self.atomic, k, c)
-        inverted = z3.If(H.ODescrS.is_DSome(old), H.ODescrS.DSome(GM.d_invert(H.ODescrS.dd(old))), H.ODescrS.DNone)
-        t = "achg" if self.atomic else "bchg"
-        tref = e.fields["_atom_stereo_change" if self.atomic else "_bond_stereo_change"].ref
-        has = ve.ac_has if self.atomic else ve.bc_has
-        ref = ve.ac_ref if self.atomic else ve.bc_ref
-        ref0 = ve0.ac_ref if self.atomic else ve0.bc_ref
-        has0 = ve0.ac_has if self.atomic else ve0.bc_has
-        top = h.top()
+        t = "achg" if at else "bchg"
+        tref = e.fields["_atom_stereo_change" if at else "_bond_stereo_change"].ref
+        pick = lambda vv: (vv.ac_has, vv.ac_ref, vv.ac_slot_has, vv.ac_slot) if at else (vv.bc_has, vv.bc_ref, vv.bc_slot_has, vv.bc_slot)  # noqa
+        has0, ref0, sh0, sl0 = pick(v0)
+        hasE, refE, shE, slE = pick(vE)
+        hasN, refN, shN, slN = pick(vN)
+        topE, topN = E.top(), N.top()
+        touched = lambda kk: z3.And(z3.Select(done, kk), has0(kk))  # noqa
         return [
             ("visited-are-keys", FA([k], z3.Implies(z3.Select(done, k), z3.Select(ctx.C, k)), patterns=[z3.Select(done, k)])),
-            ("visited-changes-inverted-others-as-copied", FA([k, c], _chg_view(ve, self.atomic, k, c) == z3.If(z3.Select(done, k), inverted, _chg_view(ve0, self.atomic, k, c)))),
-            # ownership of the copy's change dictionaries: allocated, unshared, not one of the source's
-            ("change-dicts-of-the-copy-allocated-and-not-the-source's", FA([k], z3.Implies(has(k), z3.And(ref(k) >= ctx.h_entry.A0, ref(k) < top)))),
-            ("change-dicts-of-the-copy-unshared", FA([k, ko] if False else [k, z3.Const("lk2", k.sort())],
-                                                   z3.Implies(z3.And(has(k), has(z3.Const("lk2", k.sort())), k != z3.Const("lk2", k.sort())), ref(k) != ref(z3.Const("lk2", k.sort()))))),
             ("only-the-copy's-table-is-written", _frame_other_refs(ctx, t, tref)),
-            ("old-change-dicts-untouched", FA([r_], z3.Implies(r_ < ctx.h_entry.A0, z3.And(z3.Select(h.dom["chg"], r_) == z3.Select(ctx.h_entry.dom["chg"], r_),
-                                                                                           z3.Select(h.val["chg"], r_) == z3.Select(ctx.h_entry.val["chg"], r_))))),
+            ("change-dicts-that-existed-at-loop-entry-untouched",
+             FA([r_], z3.Implies(r_ < topE, z3.And(z3.Select(N.dom["chg"], r_) == z3.Select(E.dom["chg"], r_), z3.Select(N.val["chg"], r_) == z3.Select(E.val["chg"], r_))))),
+            ("keys-of-the-copy", FA([k], hasN(k) == z3.Or(hasE(k), touched(k)), patterns=[hasN(k)])),
+            ("visited-entries-are-new-dicts-others-keep-theirs",
+             FA([k], z3.Implies(hasN(k), z3.If(touched(k), z3.And(refN(k) >= topE, refN(k) < topN), refN(k) == refE(k))), patterns=[refN(k)])),
+            ("change-dicts-of-the-copy-allocated-during-the-call", FA([k], z3.Implies(hasN(k), z3.And(refN(k) >= E.A0, refN(k) < topN)), patterns=[refN(k)])),
+            ("change-dicts-of-the-copy-unshared", FA([k, k2], z3.Implies(z3.And(hasN(k), hasN(k2), k != k2), refN(k) != refN(k2)), patterns=[z3.MultiPattern(refN(k), refN(k2))])),
+            ("visited-entries-are-keys-of-the-copy", FA([k], z3.Implies(touched(k), hasN(k)), patterns=[z3.Select(done, k)])),
+            ("visited-entries-have-the-source's-slots", FA([k, c], z3.Implies(touched(k), shN(k, c) == sh0(k, c)), patterns=[shN(k, c)])),
+            ("visited-entries-hold-the-inverted-descriptors",
+             FA([k, c], z3.Implies(z3.And(touched(k), sh0(k, c)), slN(k, c) == H.ODescrS.DSome(GM.d_invert(H.ODescrS.dd(sl0(k, c))))), patterns=[slN(k, c)])),
         ]
 
-
     def hints(self, ctx, x):
-        # the source's change dictionary under the loop element (an old reference)
-        return [ctx.v_entry.ac_ref(x) if self.atomic else ctx.v_entry.bc_ref(x)]
+        # the source's change dictionary under the loop element (an old reference) and the copy's
+        e = ctx.fr.env["enantiomer"]
+        vE = GM.View(ctx.h_entry, e)
+        return [ctx.v_entry.ac_ref(x), vE.ac_ref(x)] if self.atomic else [ctx.v_entry.bc_ref(x), vE.bc_ref(x)]
 
 
 class SCRG_enantiomer_0(_SCRG_enantiomer_changes):
